@@ -252,6 +252,8 @@ Json gen_comb(sim::Rng& rng, int)
 {
     Json p = Json::object();
     p["kind"] = rng.chance(0.5) ? "all" : "any";
+    // the range forms of whenAll: over a vector of Promise<void> (result Promise<void>) and of Promise<int> (values by position)
+    if (rng.chance(0.3)) p["kind"] = rng.chance(0.5) ? "all-range-void" : "all-range-int";
     p["reject1"] = rng.chance(0.3);
     p["reject2"] = rng.chance(0.3);
     p["prebuilt"] = rng.chance(0.5);
@@ -262,8 +264,14 @@ Json gen_comb(sim::Rng& rng, int)
     return p;
 }
 
+void run_comb_range(const Json& plan);
+
 void run_comb(const Json& plan)
 {
+    if (plan.str("kind", "all").compare(0, 9, "all-range") == 0) {
+        run_comb_range(plan);
+        return;
+    }
     sim::Recorder& r = sim::rec();
     const bool all = plan.str("kind", "all") != "any";
     const bool rej1 = plan.flag("reject1"), rej2 = plan.flag("reject2"), prebuilt = plan.flag("prebuilt");
@@ -352,6 +360,104 @@ void run_comb(const Json& plan)
         bool ok = (o.f && ((!rej1 && o.a == V1) || (!rej2 && o.a == V2))) || (o.rj && ((rej1 && o.exc == E1) || (rej2 && o.exc == E2)));
         if (!ok) r.violation("C12.outcome:not-an-input-outcome:combinator", who + ": took an outcome that none of its inputs had (value " + std::to_string(o.a) + ", exception tag " + std::to_string(o.exc) + ")");
     }
+}
+
+// whenAll(begin, end) over a vector of promises: two threads settle the two inputs while a third builds (or attaches to) it
+template <typename T>
+void run_range(const Json& plan)
+{
+    sim::Recorder& r = sim::rec();
+    constexpr bool is_void = std::is_void<T>::value;
+    const bool rej1 = plan.flag("reject1"), rej2 = plan.flag("reject2"), prebuilt = plan.flag("prebuilt");
+    const int V1 = 11, V2 = 22, E1 = 71, E2 = 72;
+    Async::Deferred<T> d1, d2;
+    std::vector<Async::Promise<T>> in;
+    in.emplace_back([&](Async::Deferred<T> d) { d1 = std::move(d); });
+    in.emplace_back([&](Async::Deferred<T> d) { d2 = std::move(d); });
+    struct {
+        int f = 0, rj = 0, a = 0, b = 0, n = 0, exc = 0;
+    } o;
+    int raised = 0;
+    std::string raised_what;
+    r.probe(is_void ? "combinator-all-range-void" : "combinator-all-range-int");
+    if (rej1 || rej2) r.probe("combinator-with-rejection");
+    auto on_reject = [&o](std::exception_ptr e) { int t = exc_tag(e); sim::IgnoreScope ig; o.rj++; o.exc = t; };
+    auto build_and_attach = [&](bool attach_only, void* pre) {
+        if constexpr (is_void) {
+            auto attach = [&](Async::Promise<void>& R) { R.then([&o]() { sim::IgnoreScope ig; o.f++; }, on_reject); };
+            if (attach_only) attach(*static_cast<Async::Promise<void>*>(pre));
+            else {
+                auto R = Async::whenAll(in.begin(), in.end());
+                attach(R);
+            }
+        } else {
+            auto attach = [&](Async::Promise<std::vector<int>>& R) {
+                R.then([&o](const std::vector<int>& v) { sim::IgnoreScope ig; o.f++; o.n = static_cast<int>(v.size()); o.a = v.size() > 0 ? v[0] : -1; o.b = v.size() > 1 ? v[1] : -1; }, on_reject);
+            };
+            if (attach_only) attach(*static_cast<Async::Promise<std::vector<int>>*>(pre));
+            else {
+                auto R = Async::whenAll(in.begin(), in.end());
+                attach(R);
+            }
+        }
+    };
+    using Combined = typename std::conditional<is_void, Async::Promise<void>, Async::Promise<std::vector<int>>>::type;
+    std::unique_ptr<Combined> pre;
+    if (prebuilt) pre.reset(new Combined(Async::whenAll(in.begin(), in.end())));
+    auto settle = [&](Async::Deferred<T>& d, bool rej, int v, int e, i64 delay, const char* name) {
+        return [&, rej, v, e, delay, name]() mutable {
+            sim::set_self_name(name);
+            if (delay > 0) sim::sleep_ns(delay);
+            try {
+                if (rej) d.reject(TestExc(e));
+                else {
+                    if constexpr (is_void) {
+                        (void)v;
+                        d.resolve();
+                    } else
+                        d.resolve(v);
+                }
+            } catch (const std::exception& ex) {
+                sim::IgnoreScope ig;
+                raised++;
+                raised_what = ex.what();
+            }
+        };
+    };
+    std::thread S1(settle(d1, rej1, V1, E1, plan.num("d1_us", 0) * 1000, "settler1"));
+    std::thread S2(settle(d2, rej2, V2, E2, plan.num("d2_us", 0) * 1000, "settler2"));
+    std::thread B([&] {
+        sim::set_self_name("attacher");
+        i64 db = plan.num("db_us", 0) * 1000;
+        if (db > 0) sim::sleep_ns(db);
+        try {
+            build_and_attach(prebuilt, pre.get());
+        } catch (const std::exception& ex) {
+            sim::IgnoreScope ig;
+            raised++;
+            raised_what = std::string("attach: ") + ex.what();
+        }
+    });
+    S1.join();
+    S2.join();
+    B.join();
+    std::string who = std::string("whenAll over a range of two Promise<") + (is_void ? "void" : "int") + "> settled by two threads (" + (rej1 ? "reject" : "fulfil") + ", " + (rej2 ? "reject" : "fulfil") + (prebuilt ? ", combinator pre-built" : ", combinator built by the attacher") + ")";
+    if (raised) r.violation("C12.combinator:outcome-raises", who + ": a settling or attaching party got an exception: " + raised_what);
+    if (o.f + o.rj == 0) r.violation("C12.once:continuation-never-ran:combinator", who + ": neither continuation ran although both inputs were settled");
+    else if (o.f + o.rj > 1) r.violation("C12.once:continuation-ran-twice:combinator", who + ": continuations ran " + std::to_string(o.f) + " + " + std::to_string(o.rj) + " times");
+    else if (!rej1 && !rej2) {
+        if (!o.f) r.violation("C12.outcome:rejected-on-fulfilment:combinator", who + ": rejected (tag " + std::to_string(o.exc) + ") although both inputs were fulfilled");
+        else if (!is_void && (o.n != 2 || o.a != V1 || o.b != V2)) r.violation("C12.outcome:wrong-value:combinator", who + ": delivered " + std::to_string(o.n) + " values (" + std::to_string(o.a) + ", " + std::to_string(o.b) + ")");
+    } else {
+        if (o.f) r.violation("C12.outcome:fulfilled-on-rejection:combinator", who + ": fulfilled although an input was rejected");
+        else if (!((rej1 && o.exc == E1) || (rej2 && o.exc == E2))) r.violation("C12.outcome:wrong-exception:combinator", who + ": rejected with tag " + std::to_string(o.exc));
+    }
+}
+
+void run_comb_range(const Json& plan)
+{
+    if (plan.str("kind") == "all-range-void") run_range<void>(plan);
+    else run_range<int>(plan);
 }
 
 Scenario scc { "c12_combinators", "C12", "two threads settle the inputs of whenAll/whenAny while a third attaches to (or builds) the combinator", gen_comb, run_comb };
